@@ -39,7 +39,7 @@ def run(rep):
 
     def nontrivial(op, impl):
         return (impl.startswith("ok ") or impl.startswith("code ") or (impl.startswith("x ") and " eq " in impl)
-                or (impl.startswith("k ") and not impl.endswith("ctx= err")))
+                or impl.startswith("k eq") or (impl.startswith("kc ") and not impl.endswith("ctx= err")))
 
     # One comparison per input route, so that a defect of one route (reader sugar, hash
     # templates, macro path …) is reported with its own failing input and does not hide
@@ -54,6 +54,8 @@ def run(rep):
             return "sq/history-" + t[2]
         if t[1] == "k":
             return "sq/call-site"
+        if t[1] == "kc":
+            return "sq/call-site-listing"
         if "{" in t:
             return "sq/hash-template"
         return {"sv": "sq/reader-sugar", "sh": "sq/reader-sugar", "lg": "sq/longhand", "dr": "sq/go-api"}.get(t[2], "sq/other")
